@@ -491,6 +491,7 @@ pub fn run(doc: &Doc, body: &C02Doc, trace: bool) -> RunResult {
                 repos: vec![RepoSpec { exp: 0, version_file: true, packs }],
                 strays: vec![],
                 secondary_segments: false,
+                table_order: 0,
             };
             let inst = build_install(&h.fs, &spec);
             info = inst.pack_info.clone();
